@@ -19,9 +19,10 @@ import (
 var wireLens = []int{0, 1, 3, 4, 31, 32, 33, 47, 48, 49, 96, 4096}
 
 type wireGen struct {
-	rc   *RunCtx
-	pop  *Population
-	uniq uint64
+	rc    *RunCtx
+	pop   *Population
+	uniq  uint64
+	epoch map[int]uint64
 }
 
 func (g *wireGen) bytesField() []byte {
@@ -138,10 +139,48 @@ func (g *wireGen) attData() *pb.AttestationData {
 	return d
 }
 
+// nearValidAtt is a request that would be signed (known permitted account, attester domain, advancing
+// epochs) with one or two fields replaced by boundary values: deep paths are only reached by requests
+// that pass every earlier check.
+func (g *wireGen) nearValidAtt() *pb.SignBeaconAttestationRequest {
+	ch := g.rc.Ch
+	k := ch.Pick(len(g.pop.Accts)-1, 0)
+	g.epoch[k] += 2
+	g.uniq++
+	e := AttEntry(k, g.epoch[k], g.epoch[k]+1, g.uniq)
+	r := &pb.SignBeaconAttestationRequest{Domain: e.Domain, Data: e.attData()}
+	if ch.Pick(2, 0) == 1 {
+		r.Id = &pb.SignBeaconAttestationRequest_PublicKey{PublicKey: g.pop.Accts[k].PubKey}
+	} else {
+		r.Id = &pb.SignBeaconAttestationRequest_Account{Account: g.pop.Accts[k].Path}
+	}
+	for i, n := 0, 1+ch.Pick(2, 0); i < n; i++ {
+		switch ch.Pick(7, 0) {
+		case 0:
+			r.Data.BeaconBlockRoot = g.bytesField()
+		case 1:
+			r.Data.Source.Root = g.bytesField()
+		case 2:
+			r.Data.Target.Root = g.bytesField()
+		case 3:
+			r.Domain = append(append([]byte{}, e.Domain[:4]...), g.bytesField()...)
+		case 4:
+			r.Data.Slot, r.Data.CommitteeIndex = g.u64(), g.u64()
+		case 5:
+			r.Data.Target.Epoch = g.u64()
+		default:
+		}
+	}
+	return r
+}
+
 func (g *wireGen) attReq() *pb.SignBeaconAttestationRequest {
 	ch := g.rc.Ch
 	if ch.Pick(40, 0) == 39 {
 		return nil
+	}
+	if ch.Pick(5, 0) >= 3 {
+		return g.nearValidAtt()
 	}
 	r := &pb.SignBeaconAttestationRequest{Domain: g.domain(), Data: g.attData()}
 	switch ch.Pick(5, 0) {
@@ -158,6 +197,21 @@ func (g *wireGen) signReq() *pb.SignRequest {
 	ch := g.rc.Ch
 	if ch.Pick(40, 0) == 39 {
 		return nil
+	}
+	if ch.Pick(5, 0) >= 3 {
+		// near-valid: known account, harmless domain type, data or domain of boundary length
+		k := ch.Pick(len(g.pop.Accts)-1, 0)
+		g.uniq++
+		r := &pb.SignRequest{Id: &pb.SignRequest_Account{Account: g.pop.Accts[k].Path}, Data: h32("nv", g.uniq), Domain: MkDomain([4]byte{7, 0, 0, 0}, g.uniq)}
+		switch ch.Pick(3, 0) {
+		case 0:
+			r.Data = g.bytesField()
+		case 1:
+			r.Domain = append([]byte{7, 0, 0, 0}, g.bytesField()...)
+		default:
+			r.Domain = r.Domain[:[]int{1, 2, 3, 4, 5}[ch.Pick(5, 0)]]
+		}
+		return r
 	}
 	r := &pb.SignRequest{Domain: g.domain(), Data: g.bytesField()}
 	switch ch.Pick(5, 0) {
@@ -249,6 +303,25 @@ func (g *wireGen) next() wireCall {
 			r.Id = &pb.SignBeaconProposalRequest_PublicKey{PublicKey: g.pubKey()}
 		default:
 			r.Id = &pb.SignBeaconProposalRequest_Account{Account: g.accountName()}
+		}
+		if ch.Pick(5, 0) >= 3 {
+			// near-valid: known account, proposer domain, advancing slot, one root of boundary length
+			k := ch.Pick(len(g.pop.Accts)-1, 0)
+			g.epoch[k] += 2
+			g.uniq++
+			e := PropEntry(k, g.epoch[k], g.uniq)
+			r = &pb.SignBeaconProposalRequest{Id: &pb.SignBeaconProposalRequest_Account{Account: g.pop.Accts[k].Path}, Domain: e.Domain,
+				Data: &pb.BeaconBlockHeader{Slot: e.PSlot, ProposerIndex: e.PIdx, ParentRoot: e.Parent, StateRoot: e.State, BodyRoot: e.Body}}
+			switch ch.Pick(4, 0) {
+			case 0:
+				r.Data.ParentRoot = g.bytesField()
+			case 1:
+				r.Data.StateRoot = g.bytesField()
+			case 2:
+				r.Data.BodyRoot = g.bytesField()
+			default:
+				r.Domain = append(append([]byte{}, e.Domain[:4]...), g.bytesField()...)
+			}
 		}
 		return wireCall{"Signer.SignBeaconProposal", rt(r, &pb.SignBeaconProposalRequest{}), func(ctx context.Context, n *Node, r proto.Message) (proto.Message, error) {
 			return n.Inst.SignerH.SignBeaconProposal(ctx, r.(*pb.SignBeaconProposalRequest))
@@ -389,7 +462,7 @@ func runWire(t *testing.T, rc *RunCtx) {
 	c := NewCluster(t, rc, s, ClusterCfg{IDs: []uint64{1, 2}, Specs: []WalletSpec{w1, w2, {Name: "Wallet 3", Kind: "distributed"}}})
 	defer c.Close()
 	n := c.Nodes[0]
-	g := &wireGen{rc: rc, pop: n.Pop}
+	g := &wireGen{rc: rc, pop: n.Pop, epoch: map[int]uint64{}}
 	canaryAcct := n.Pop.ByPath("Wallet 2/Canary")
 	nReq := 8 + ch.Pick(24, 0)
 	var desc []string
